@@ -849,6 +849,12 @@ func (m *Monitor) Check(n *Node, events []string) []string {
 		bad = append(bad, fmt.Sprintf("finalized-decreased: %d -> %d", m.Finalized, fin))
 	}
 	_, pre, _ := n.BFTHeights()
+	if n.Tip() == nil {
+		bad = append(bad, "cached-tip-missing: Chain.LastBlock() is nil")
+		m.Finalized = fin
+		m.init = true
+		return bad
+	}
 	tip := n.Tip().Header
 	// stored finalized height is the running maximum of the precommitted height
 	if fin < pre {
